@@ -8977,7 +8977,7 @@ func (c *BytecodeCompiler) emitInstantiate(args int, location *position.Location
 	if args <= math.MaxUint16 {
 		bytes := make([]byte, 2)
 		binary.BigEndian.PutUint16(bytes, uint16(args))
-		c.bytecode.AddInstruction(location.StartPos.Line, bytecode.INSTANTIATE8, bytes...)
+		c.bytecode.AddInstruction(location.StartPos.Line, bytecode.INSTANTIATE16, bytes...)
 		return
 	}
 
